@@ -280,6 +280,7 @@ func C07(c *Ctx) {
 	c.assignmentKindsRule("C07-10")
 	c.converterSetRule("C07-11")
 	c.getterShapeRule("C07-12")
+	c.converterArgRule("C07-13")
 
 	r.Rule("C07-7", "the Error flag of a SimpleField built for a :conv / :map / $map notation is taken from the converter's RetError() / the resolved node's ReturnsError() (never a constant)")
 	if sf != nil {
